@@ -8,8 +8,7 @@ from . import common as K
 from .. import sites as S
 
 # sites that depend on caller-supplied settings, not on replies: decided under C18
-SETTINGS_SITES = ("socket::<TcpSocketImpl as Socket>::apply_timeout", "socket::<UdpSocketImpl as Socket>::apply_timeout",
-                  "utils::retry_on_timeout|overflow:Add")
+SETTINGS_SITES = ("::apply_timeout|unwrap:", "utils::retry_on_timeout|overflow:Add")
 
 
 def is_settings_site(s):
@@ -19,10 +18,8 @@ def is_settings_site(s):
 def run(tier, config):
     rep = Report("C01")
     c = K.crate("gamedig-lib", config)
-    rules = {}
     from . import c17
-    rules["INV-CURSOR"] = lambda: c17.inv_cursor_status(c)
-    rules["DECODER-CONTRACT"] = lambda: c17.decoder_contract_status(c)
+    rules = c17.rules_for(c)
     n = K.ledger_obligations(rep, c, "C01", lambda s: not is_settings_site(s), rules=rules)
     nl = K.loop_obligations(rep, c)
     g = K.callgraph(c)
